@@ -187,34 +187,51 @@ struct SinkState<S> {
     recorder: Option<Box<dyn MetricRecorder>>,
 }
 
-impl<S: EntryIoStream> SinkState<S> {
-    fn append<E: Entry>(&mut self, entry: &E) {
-        match self.stream.next(entry) {
-            Ok(()) => {}
-            Err(IoStreamError::Validation(err)) => {
+/// What went wrong while an entry was written and flushed. It is reported only once the sink's lock has been
+/// released: a tracing subscriber that reacts to the report by appending to this very sink must not find it locked.
+#[must_use]
+struct AppendErrors {
+    next: Option<IoStreamError>,
+    flush: Option<std::io::Error>,
+}
+
+impl AppendErrors {
+    fn report(self) {
+        match self.next {
+            None => {}
+            Some(IoStreamError::Validation(err)) => {
                 tracing::error!(?err, "metric entry couldn't be formatted correctly");
             }
-            Err(IoStreamError::Io(err)) => {
+            Some(IoStreamError::Io(err)) => {
                 tracing::error!(?err, "couldn't append to metric stream");
             }
         }
-
-        // Flush after each write to ensure entries are written immediately
-        self.flush();
-    }
-
-    fn flush(&mut self) {
-        let start = Instant::now();
-
-        if let Err(err) = self.stream.flush() {
+        if let Some(err) = self.flush {
             tracing::warn!(?err, "couldn't flush metric stream");
         }
+    }
+}
+
+impl<S: EntryIoStream> SinkState<S> {
+    fn append<E: Entry>(&mut self, entry: &E) -> AppendErrors {
+        let next = self.stream.next(entry).err();
+
+        // Flush after each write to ensure entries are written immediately
+        let flush = self.flush();
+        AppendErrors { next, flush }
+    }
+
+    fn flush(&mut self) -> Option<std::io::Error> {
+        let start = Instant::now();
+
+        let result = self.stream.flush().err();
 
         // Record flush time metric if recorder is configured
         if let Some(recorder) = &self.recorder {
             let flush_time_ms = start.elapsed().as_millis() as u32;
             recorder.record_histogram("metrique_flush_time_ms", &self.name, flush_time_ms);
         }
+        result
     }
 }
 
@@ -286,8 +303,8 @@ impl FlushImmediately<(), ()> {
 
 impl<T: Entry, S: EntryIoStream> EntrySink<T> for FlushImmediately<T, S> {
     fn append(&self, entry: T) {
-        let mut state = self.stream.lock().unwrap();
-        state.append(&entry);
+        let errors = self.stream.lock().unwrap().append(&entry);
+        errors.report();
     }
 
     fn flush_async(&self) -> FlushWait {
@@ -319,8 +336,8 @@ impl<S: EntryIoStream> AnyFlushImmediately<S> {
 
 impl<S: EntryIoStream> AnyEntrySink for AnyFlushImmediately<S> {
     fn append_any(&self, entry: impl Entry + Send + 'static) {
-        let mut state = self.stream.lock().unwrap();
-        state.append(&entry);
+        let errors = self.stream.lock().unwrap().append(&entry);
+        errors.report();
     }
 
     fn flush_async(&self) -> FlushWait {
